@@ -19,7 +19,7 @@ ACTS = {'rename_gate', 'replace_inputs', 'remove_gate', 'replace_subcircuit'}
 def sources(tier, seed, ctx):
     rng = random.Random(seed + 19)
     note = []
-    srcs = H.bfs_filtered(3 if tier == 'quick' else 4, {'rename_gate', 'replace_inputs', 'remove_gate'}, 'C19-bfs', ctx, note)
+    srcs = H.bfs_filtered(3 if tier == 'quick' else 4, {'rename_gate', 'replace_inputs', 'remove_gate', 'replace_subcircuit'}, 'C19-bfs', ctx, note)
     if tier == 'thorough' and len(srcs) > 60000:
         rng.shuffle(srcs)
         srcs = srcs[:60000]
